@@ -74,7 +74,7 @@ Definition values : list (list Z) :=
 
 Definition grid_ops (b : Z) : list op :=
   flat_map (fun i => [DelInt i; SetInt i 99; SetInt i 199; SetInt i 200; Insert i 99; Insert i 200;
-                      Pop (Some i); Imul i; Remove (10 + i)]) (zr (- b) b)
+                      Pop (Some i); Imul i; Remove (10 + i); InsertX i 99; PopX i; ImulX i]) (zr (- b) b)
   ++ [Pop None; Append 5; Append 105; Append 200; Extend [5; 6]; Extend []; Extend [5; 200]; Iadd [5; 106];
       Iadd []; ImulQ 1 2; ImulQ 5 2; ImulQ 2 1; ImulQ (-1) 2; Clear; Reverse; Sort 0 false; Sort 0 true; Sort 3 false; Sort 3 true; Sort 2 true]
   ++ flat_map (fun sl => DelSlice sl :: map (SetSlice sl) values) (slices b).
@@ -123,4 +123,55 @@ Definition norm_spec_b (f : Z -> slice -> bool * ios) (len : Z) (sl : slice) : b
   | S3 s e k => (0 <=? s) && (s <? e) && (e <=? len) && (2 <=? k) && (2 <=? n)
                 && zlist_eqb (flip rv P) (positions s k (Z.to_nat n))
                 && (slicelen s e k =? n) && (e =? s + (n - 1) * k + 1)
+  end.
+
+(* ---------- copies (copy.copy, copy.deepcopy, pickle round trip) ---------- *)
+(* TraitList (trait_list_object.py l.499-524): __deepcopy__ rebuilds the list through the constructor (every item goes
+   through the validator again); copy.copy restores the state (validator) first and then appends the items (validated
+   again); a pickle round trip appends the items to the bare object first (default validator) and restores the state
+   afterwards.  Notifiers are dropped in all three.  The history then continues on the copy: it is a TraitList with the
+   same validator.
+   TraitListObject (l.810-850): deepcopy gives an object of the same trait without owner: items are no longer validated,
+   the length bounds still are; after a pickle round trip neither (trait = None). *)
+(* contents of the copy and the (target, validator) configuration the history continues with *)
+Definition copy_result (t : target) (vk : vkind) (k : copykind) (l : list Z) : res (list Z) * (target * vkind) :=
+  match t with
+  | TPlain => (tl_copy (vld_of vk) k l, (TPlain, vk))
+  | TObj mn mx =>
+      match k with
+      | CopyDeep => (Ok l, (TObj mn mx, VAll))
+      | _ => (Ok (map vpart l), (TObj 0 None, VAll))  (* pickle; copy.copy of a TraitListObject is not generated *)
+      end
+  end.
+
+(* case: target, validator, kind, contents before; observed: outcome/contents of the copy, "the old notifiers are gone",
+   the history continued on the copy *)
+Definition ccase := (target * vkind * copykind * list Z * res (list Z) * bool * list (op * obs))%type.
+
+Definition corr_copy (c : ccase) : list Z :=
+  let '(t, vk, k, l, ob, fresh, h) := c in
+  let '(m, (t', vk')) := copy_result t vk k l in
+  match m, ob with
+  | Ok a, Ok b => chk 2 (zlist_eqb a b) ++ corr_hist (step_of t' vk') 1 b h
+  | Raise x, Raise y => chk 1 (exn_eqb x y)
+  | _, _ => [1]
+  end.
+
+(* 10: the copy still calls the original's notifiers; 11: the copy does not hold the validated items of the original;
+   then the list law on everything done to a TraitList copy *)
+Definition law_copy (c : ccase) : list Z :=
+  let '(t, vk, k, l, ob, fresh, h) := c in
+  chk 10 fresh ++
+  match ob with
+  | Ok b =>
+      match t with
+      | TPlain =>
+          chk 11 (match k with
+                  | CopyPickle => zlist_eqb b (map vpart l)
+                  | _ => match vld_all (vld_of vk) l with Some ys => zlist_eqb b ys | None => false end
+                  end)
+          ++ law_hist (vld_of vk) 1 b h
+      | TObj _ _ => chk 11 (zlist_eqb (map vpart b) (map vpart l))
+      end
+  | Raise _ => []
   end.
